@@ -228,7 +228,10 @@ def _text_cases():
         dts.append(datetime.datetime(2020, 2, 29, 23, 59, 59, 999999, tzinfo=tz))
         dts.append(datetime.datetime(1970, 1, 1, 0, 0, 0, 1, tzinfo=tz))
     dts += [datetime.datetime(1, 1, 2, tzinfo=UTC), datetime.datetime(9999, 12, 30, 23, 59, 59, tzinfo=UTC),
-            datetime.datetime(2021, 10, 31, 1, 30, tzinfo=UTC, fold=1), datetime.datetime(2000, 1, 1, tzinfo=UTC)]
+            datetime.datetime(2021, 10, 31, 1, 30, tzinfo=UTC, fold=1), datetime.datetime(2000, 1, 1, tzinfo=UTC),
+            datetime.datetime(3000, 9, 25, 13, 51, 29, 607690, tzinfo=UTC), datetime.datetime(101, 7, 9, 12, 0, 0, 1, tzinfo=UTC),
+            datetime.datetime(4395, 1, 28, 0, 23, 29, 999999, tzinfo=aw(10, 17)), datetime.datetime(1, 1, 1, 0, 0, tzinfo=aw(23, 59)),
+            datetime.datetime(9999, 12, 31, 23, 59, 59, 999999, tzinfo=aw(-23, -59))]
     times = []
     for tz in offs:
         times.append(datetime.time(23, 59, 59, 999999, tzinfo=tz))
